@@ -693,20 +693,17 @@ func (analyser *BurndownAnalysis) MergeResults(
 	if len(merged.reversedPeopleDict) > 0 {
 		if len(bar1.PeopleHistories) > 0 || len(bar2.PeopleHistories) > 0 {
 			merged.PeopleHistories = make([]DenseHistory, len(merged.reversedPeopleDict))
-			for i, key := range merged.reversedPeopleDict {
-				ptrs := people[key]
+			// `people` is keyed by the input identities; several of them may belong to one merged identity
+			sums1 := sumPeopleHistories(bar1.PeopleHistories, bar1.reversedPeopleDict, people,
+				len(merged.reversedPeopleDict))
+			sums2 := sumPeopleHistories(bar2.PeopleHistories, bar2.reversedPeopleDict, people,
+				len(merged.reversedPeopleDict))
+			for i := range merged.reversedPeopleDict {
 				wg.Add(1)
 				go func(i int) {
 					defer wg.Done()
-					var m1, m2 DenseHistory
-					if ptrs.First >= 0 {
-						m1 = bar1.PeopleHistories[ptrs.First]
-					}
-					if ptrs.Second >= 0 {
-						m2 = bar2.PeopleHistories[ptrs.Second]
-					}
 					merged.PeopleHistories[i] = analyser.mergeMatrices(
-						m1, m2,
+						sums1[i], sums2[i],
 						bar1.granularity, bar1.sampling,
 						bar2.granularity, bar2.sampling,
 						bar1.tickSize,
@@ -739,9 +736,10 @@ func (analyser *BurndownAnalysis) MergeResults(
 				}
 				for i, key := range bar1.reversedPeopleDict {
 					mi := people[key].Final // index in merged.reversedPeopleDict
-					copy(merged.PeopleMatrix[mi][:2], bar1.PeopleMatrix[i][:2])
+					merged.PeopleMatrix[mi][0] += bar1.PeopleMatrix[i][0]
+					merged.PeopleMatrix[mi][1] += bar1.PeopleMatrix[i][1]
 					for j, val := range bar1.PeopleMatrix[i][2:] {
-						merged.PeopleMatrix[mi][2+people[bar1.reversedPeopleDict[j]].Final] = val
+						merged.PeopleMatrix[mi][2+people[bar1.reversedPeopleDict[j]].Final] += val
 					}
 				}
 				for i, key := range bar2.reversedPeopleDict {
@@ -757,6 +755,43 @@ func (analyser *BurndownAnalysis) MergeResults(
 	}
 	wg.Wait()
 	return merged
+}
+
+// sumPeopleHistories adds up the histories of the developers which are merged into the same identity.
+// The result is indexed by the merged identity; nil means that no developer belongs to it.
+func sumPeopleHistories(histories []DenseHistory, reversedPeopleDict []string,
+	people map[string]identity.MergedIndex, size int) []DenseHistory {
+	sums := make([]DenseHistory, size)
+	for i, key := range reversedPeopleDict {
+		if i >= len(histories) {
+			break
+		}
+		final := people[key].Final
+		if sums[final] == nil {
+			sums[final] = histories[i]
+			continue
+		}
+		sum := make(DenseHistory, 0, len(histories[i]))
+		for y := 0; y < len(sums[final]) || y < len(histories[i]); y++ {
+			var row1, row2 []int64
+			if y < len(sums[final]) {
+				row1 = sums[final][y]
+			}
+			if y < len(histories[i]) {
+				row2 = histories[i][y]
+			}
+			if len(row1) < len(row2) {
+				row1, row2 = row2, row1
+			}
+			row := append([]int64{}, row1...)
+			for x, val := range row2 {
+				row[x] += val
+			}
+			sum = append(sum, row)
+		}
+		sums[final] = sum
+	}
+	return sums
 }
 
 func roundTime(t time.Time, d time.Duration, dir bool) int {
